@@ -11,6 +11,7 @@ semantics (`docs/spec.md`) as *derived* rules of that judgment.
 -/
 import UH.Proofs.NatSem
 import UH.Proofs.EvalF
+import UH.Proofs.NatSemMemo
 import UH.Model.Main
 namespace UH.NatSemP
 open UH BigStep Unforced C19
@@ -86,6 +87,28 @@ theorem completed_cell_served {s w h t k ke v r s' w'} (hv : (s.getCell t).value
 theorem completed_failure_served {s w h t k ke e r s' w'} (hv : (s.getCell t).value = some (.error e))
     (hk : Eval s w (.comp (ke e)) h r s' w') : Eval s w (.comp (.force t k ke)) h r s' w' :=
   .forceErr hv hk
+
+/-- **C13 — evaluation never forgets**: whatever is evaluated, in whatever order and with whatever result, every cell
+that held an outcome before holds one afterwards — so no completed delayed expression is ever evaluated again
+(`completed_cell_served`) -/
+theorem knowledge_grows {s w task h r s' w'} (hev : Eval s w task h r s' w') (hw : HeapWF s.cells) :
+    HeapWF s'.cells ∧ ∀ t, Known s t → Known s' t := hev.knowledge_grows hw
+
+theorem cells_persist {s w task h r s' w'} (hev : Eval s w task h r s' w') :
+    ∀ u, (s.cells.get? u).isSome → (s'.cells.get? u).isSome := hev.cells_persist
+
+/-- a frame that ends with its own value leaves exactly that value in its cell … -/
+theorem value_recorded {s w h t v s1 w1}
+    (hc : Eval s w (.comp (newFrame s t).cur) h (.ok (.arg (.strict v))) s1 w1) (ht : (s.cells.get? t).isSome) :
+    ((s1.resolve (s1.cells.size + 1) t (.ok v)).getCell t).value = some (.ok v) := frame_value_recorded hc ht
+
+/-- … and one that ends with an exception leaves the exception: the failure is shared by every later user -/
+theorem failure_recorded {s w h t e s1 w1}
+    (hc : Eval s w (.comp (newFrame s t).cur) h (.error e) s1 w1) (ht : (s.cells.get? t).isSome) :
+    ((s1.resolve (s1.cells.size + 1) t (.error e)).getCell t).value = some (.error e) := frame_failure_recorded hc ht
+
+/-- the initial store is well-formed (the hypothesis of `knowledge_grows` is satisfiable) -/
+theorem initStore_wf : HeapWF initStore.cells := HeapWF.empty
 
 /-! ### C02 — the core calculus: derived natural-semantics rules -/
 
